@@ -3,7 +3,7 @@ glue that turns TLC runs and replays into verdicts and evidence."""
 from . import pipeline
 from .common import Report
 
-CFG = """SPECIFICATION Spec
+CFG = """SPECIFICATION SpecL{level}
 CONSTANTS
   Keys <- {keys}
   LookupKeys <- {look}
@@ -16,7 +16,6 @@ CONSTANTS
   Bugs <- {bugs}
 {invariants}
 {properties}
-CONSTRAINT {constraint}
 VIEW {view}
 {emit}
 CHECK_DEADLOCK FALSE
@@ -31,7 +30,7 @@ def cfg(*, keys="KQuick", look="LQuick", vals="VQuick", maxlive=3, maxbatch=2, m
         prune=prune, features=features, bugs=bugs,
         invariants="\n".join(f"INVARIANT {i}" for i in invariants),
         properties="\n".join(f"PROPERTY {p}" for p in properties),
-        constraint=f"Lvl{level}", view=view,
+        level=level, view=view,
         emit=f"ACTION_CONSTRAINT {emit}" if emit else "")
 
 
@@ -49,16 +48,58 @@ def run_spec_to_code(rep, cfg_text, opts=(), owners=None, **kw):
     return res
 
 
-def c01(tier):
-    rep = Report("C01", tier, LEVEL)
-    rep.assumptions += ["database is a dict started empty", "hash collisions are outside the model"]
-    inv = ["MapRefinement", "LookupAgrees", "PairsAreContents"]
-    if tier == "quick":
-        run_spec_to_code(rep, cfg(invariants=inv, level=5, emit="EmitC01"))
-    else:
-        run_spec_to_code(rep, cfg(keys="KFull", look="LFull", vals="VFull", maxlive=4, maxbatch=3,
-                                  invariants=inv, level=6, emit="EmitC01"))
+def run_code_to_spec(rep, modes, n, prune=None):
+    """generate n histories of the real code per mode and let TLC validate them"""
+    import random
+
+    from . import hexary_driver as hd
+    from .common import import_repo, seed
+
+    mod = import_repo()
+    rng = random.Random(seed() * 7919 + 17)
+    traces = []
+    for i in range(n):
+        for m in modes:
+            traces.append(hd.gen_trace(mod, rng, m, prune))
+    probs = sorted({p for t in traces for p in t["problems"]})
+    for t in traces:
+        if "notcontentaddressed" in t["problems"]:
+            rep.violation("C04.contentaddressed" if rep.prop == "C04" else "mirror.contentaddressed",
+                          {"problem": "database entry whose key is not keccak(value)"},
+                          {"kind": "trace", "trace": t})
+    if probs and probs != ["missing"]:
+        rep.note(f"driver decode problems: {probs}")
+    pipeline.code_to_spec(rep, "Trace_Hexary", "Trace_Hexary.cfg", traces,
+                          consts=("TraceConsts_Hexary", hd.consts))
+    acts = rep.cov.setdefault("trace_event_counts", {})
+    for t in traces:
+        for e in t["ev"]:
+            key = e["a"] + ("!" + e["out"]["kind"] if e["out"]["kind"] not in ("ok", "val") else "")
+            acts[key] = acts.get(key, 0) + 1
+    rep.cov.setdefault("trace_modes", []).extend(modes)
+
+
+ASSUME = ["database is a dict started empty", "hash = identity in the model: keccak collisions are outside it",
+          "rlp / eth_hash from the venv and harness/realize.py are trusted",
+          "exhaustive only within the bounded universe named in tlc_runs; generated histories beyond it are samples"]
+
+
+def generic(prop, tier, quick, thorough, *, opts=(), modes=("plain",), ntr=(60, 600), prune=None):
+    rep = Report(prop, tier, LEVEL)
+    rep.assumptions += ASSUME
+    for kw in (quick if tier == "quick" else thorough):
+        run_spec_to_code(rep, cfg(**kw), opts)
+    run_code_to_spec(rep, modes, ntr[0] if tier == "quick" else ntr[1], prune)
     return rep.finish()
+
+
+def c01(tier):
+    inv = ["MapRefinement", "LookupAgrees", "PairsAreContents"]
+    return generic("C01", tier,
+                   [dict(invariants=inv, level=5, emit="EmitC01")],
+                   [dict(keys="KFull", look="LFull", vals="VFull", maxlive=4, maxbatch=3,
+                         invariants=inv, level=6, emit="EmitC01")],
+                   modes=("plain", "batch"), ntr=(100, 1500))
 
 
 CHECKS = {"C01": c01}
